@@ -220,7 +220,7 @@ int main(int argc, char** argv) {
   R.count("transitions", nstates * ops.size());
   R.count("traces_validated", nstates * ops.size());
   // ---- (iii) sort on all short key lists, values = stability witnesses ----------------------------
-  std::vector<std::string> SK = {"a", "b", "", EACUTE, HW_STOP, U10000, U1F600, "aa", UFFFD, UD7FF, UE000, "a" U10000, "a" HW_STOP};
+  std::vector<std::string> SK = {"a", "b", "", EACUTE, HW_STOP, U10000, U1F600, "aa", UFFFD, UD7FF, UE000, "a" U10000, "a" HW_STOP, "\xc3\x9f" "a", EACUTE "a"};  // last two: same lead byte, continuation bytes 0x9F / 0xA9, one more byte after
   int ks = int(A.geti("ksort", T ? 6 : 4));
   uint64_t n3 = 0;
   for (int len = 2; len <= ks; len++) {
